@@ -42,16 +42,18 @@ type WW struct {
 	Rotated map[string]int
 	Det     map[string]*DetTable // per wallet
 	// what the harness did
-	MintedIn  map[string]uint64 // per mint: sat paid in over Lightning for wallet mint quotes
-	Strict    bool
-	NoFaults  bool
-	LastOp    string
-	Deficit   map[string]int64
-	nRestore  int
-	Crashed   map[string]bool // wallets whose process was killed at some point
-	sigMon    map[string]int
-	forceDLEQ bool
-	emptyUsed bool
+	MintedIn map[string]uint64 // per mint: sat paid in over Lightning for wallet mint quotes
+	Strict   bool
+	NoFaults bool
+	LastOp   string
+	// notUnspentSeen: wallet|Y of spendable proofs already reported as not UNSPENT at the mint
+	notUnspentSeen map[string]bool
+	Deficit        map[string]int64
+	nRestore       int
+	Crashed        map[string]bool // wallets whose process was killed at some point
+	sigMon         map[string]int
+	forceDLEQ      bool
+	emptyUsed      bool
 }
 
 func (rc *RunCtx) NewWalletWorld(ln LNConfig, mintFees []uint, nWallets int) *WW {
@@ -668,14 +670,26 @@ func (ww *WW) CheckWallets(when string) {
 			W.Book.Violate("C17.balance_by_mint", when, "%s: balances by mint add up to %d, spendable proofs are worth %d", w, bm, sum)
 		}
 		// every spendable proof is unspent at its mint
-		for m, ys := range Ys {
+		mintsOfYs := make([]string, 0, len(Ys))
+		for m := range Ys {
+			mintsOfYs = append(mintsOfYs, m)
+		}
+		sort.Strings(mintsOfYs)
+		for _, m := range mintsOfYs {
+			ys := Ys[m]
 			if m == "" {
 				continue
 			}
 			st := W.MintState(m, ys)
 			for _, y := range ys {
-				if st[y] != "UNSPENT" {
-					W.Book.Violate("C17.spendable_not_unspent", when+"|"+st[y], "%s counts a proof as spendable that is %s at the mint", w, st[y])
+				// each proof is reported once, attributed to the operation after which it first
+				// showed up (the fingerprint names that operation, not the moment of the check)
+				if st[y] != "UNSPENT" && !ww.notUnspentSeen[w+"|"+y] {
+					if ww.notUnspentSeen == nil {
+						ww.notUnspentSeen = map[string]bool{}
+					}
+					ww.notUnspentSeen[w+"|"+y] = true
+					W.Book.Violate("C17.spendable_not_unspent", ww.LastOp+"|"+st[y], "after [%s] (%s) %s counts a proof as spendable that is %s at the mint", ww.LastOp, when, w, st[y])
 				}
 			}
 		}
